@@ -515,7 +515,68 @@ def corpus(ctx, res):
     check_arrays(ctx, res, [[3, 1, 5, 3, 4, 7, 6, 1], [8, 8, 8]], "int", "rmq/corpus")
 
 
+def one_history(hseed):
+    """One history over REUSED node objects, determined by `hseed`: a tree is indexed (LowestCommonAncestor built and
+    queried), edited in place (a new first child under a random node, or a subtree detached), and a NEW
+    LowestCommonAncestor is built over the same node objects; every query of the new instance must agree with the
+    parent chains of the tree as it is now.  Returns (case, None | what fails)."""
+    import random
+
+    rng = random.Random(hseed)
+    shape = random_shape(rng, rng.randint(3, 9))
+    root, nodes = build(shape)
+    first = LowestCommonAncestor(root)
+    objs = [nd for _, nd in nodes]
+    try:
+        first(*rng.sample(objs, 2))
+    except Exception:  # noqa
+        pass
+    edit = rng.choice(["new_first_child", "detach"])
+    case = {"kind": "history", "hseed": hseed, "shape": shape, "edit": edit}
+    if edit == "new_first_child":
+        host = rng.choice(objs)
+        fresh = Tree()
+        fresh.name = "x"
+        host.children.insert(0, fresh)
+        fresh.up = host
+        new_root = root
+    else:
+        inner = [nd for nd in objs if nd.children and nd is not root]
+        if not inner:
+            return case, None
+        new_root = rng.choice(inner).detach()
+    cur = list(new_root.traverse("preorder"))
+    try:
+        second = LowestCommonAncestor(new_root)
+    except Exception as e:  # noqa
+        return case, f"LowestCommonAncestor over reused node objects after '{edit}' raised {type(e).__name__}"
+    for _ in range(12):
+        x, y = rng.choice(cur), rng.choice(cur)
+        try:
+            got = (second(x, y) is naive_lca([x, y]), bool(second.is_ancestor_of(x, y)) == naive_is_anc(x, y),
+                   second.level(x) == naive_level(x), second.distance(x, y) == naive_dist(x, y))
+        except Exception as e:  # noqa
+            got = type(e).__name__
+        if got != (True, True, True, True):
+            return case, (f"after the tree was edited in place ('{edit}') and indexed again over the same node objects, "
+                          f"the queries disagree with the parent chains (lca, ancestor, level, distance ok: {got})")
+    return case, None
+
+
+def history_stream(ctx, res, n):
+    """State shared between LowestCommonAncestor instances (a class-level index, a cache keyed by nodes) shows only
+    on histories over reused node objects."""
+    for _ in range(n):
+        case, bad = one_history(ctx.rng.getrandbits(32))
+        res.case(case, nontrivial=True)
+        res.dist["history over reused node objects"] += 1
+        if bad:
+            res.violation(bad, case)
+            return
+
+
 def run(ctx, res):
+    history_stream(ctx, res, ctx.budget(200, 2000))
     max_nodes = ctx.budget(6, 7)
     run_tree_jobs(ctx, res, list(exhaustive_tree_jobs(ctx, res, max_nodes)))
     run_tree_jobs(ctx, res, list(random_tree_jobs(ctx, res, ctx.budget(150, 2000))))
@@ -530,6 +591,9 @@ def run(ctx, res):
 def replay(ctx, data):
     case = data["input"]
     kind = case["kind"]
+    if kind == "history":
+        _, bad = one_history(case["hseed"])
+        return bad is None, ("ok: property holds on this history" if bad is None else "still fails: " + bad)
     if kind == "rmq":
         elem = case.get("elem", "int")
         arr = [tuple(x) if elem == "pair" else x for x in case["data"]]
